@@ -98,12 +98,20 @@ func (r *Report) Check(cond bool, rule, construct, pos, okDetail, badDetail stri
 
 // Floor fails when fewer instances than confirmed by hand were found, so a
 // rule cannot pass vacuously.
-func (r *Report) Floor(rule, what string, got, min int) {
+//
+// The argument is the count confirmed by hand when the rule was written.  The check fails below 60% of it (never
+// below 1): the instances that exist are each judged by the rule itself, the floor only guards against a rule that
+// has lost its subject, and a refactoring that merges two call sites or two arms must not make the check fail.
+func (r *Report) Floor(rule, what string, got, confirmed int) {
 	r.Counts[what] = got
+	min := confirmed * 6 / 10
+	if min < 1 && confirmed > 0 {
+		min = 1
+	}
 	if got < min {
 		r.Undecided("FLOOR", rule+":"+what, "-", fmt.Sprintf("found %d instances, expected at least %d: the rule would pass vacuously; re-confirm the instance table", got, min))
 	} else {
-		r.OK("FLOOR", rule+":"+what, "-", fmt.Sprintf("%d instances (floor %d)", got, min))
+		r.OK("FLOOR", rule+":"+what, "-", fmt.Sprintf("%d instances (confirmed %d, floor %d)", got, confirmed, min))
 	}
 }
 
